@@ -1,2 +1,3 @@
+pub mod authz;
 pub mod batched;
 pub mod hierarchy;
